@@ -1,3 +1,4 @@
+import BeyondVerif.Generated.FrameGlue
 /-!
 The loop shared by `Orientation.convert_to` (beyond/frames/orient.py) and `Center.convert_to`
 (beyond/frames/center.py), generic in the carrier:
@@ -9,6 +10,9 @@ The loop shared by `Orientation.convert_to` (beyond/frames/orient.py) and `Cente
         else: raise ValueError
         m = M @ m
 
+Which element a direct / a reverse provider contributes and how the product is accumulated is NOT written here: it is read from the
+AST of `Orientation.convert_to` on every run (`Generated.Glue.orientDirect / orientReverse / orientUpdate`, harness/props/C02.py `_Glue`).
+
 No Mathlib: linked into the driver (carrier `T6` over `Float`) and used by the theorems (carrier `T6` over ℝ,
 and any carrier with an associative product for the path-independence theorem).
 -/
@@ -17,10 +21,10 @@ namespace BeyondVerif.Chain
 /-- the element used for the step `a → b`: the direct provider if it exists, else the inverse of the reverse one -/
 def stepElem {α : Type} (inv : α → α) (edge : Nat → Nat → Option α) (a b : Nat) : Option α :=
   match edge a b with
-  | some M => some M
+  | some M => some (Generated.Glue.orientDirect inv M)
   | none =>
     match edge b a with
-    | some M => some (inv M)
+    | some M => some (Generated.Glue.orientReverse inv M)
     | none => none
 
 /-- fold of the loop body over the steps, starting from `m`; `none` = `ValueError("Unknown transformation")` -/
@@ -28,7 +32,7 @@ def chain {α : Type} (mul : α → α → α) (inv : α → α) (edge : Nat →
   | [], m => some m
   | (a, b) :: rest, m =>
     match stepElem inv edge a b with
-    | some M => chain mul inv edge rest (mul M m)
+    | some M => chain mul inv edge rest (Generated.Glue.orientUpdate mul M m)
     | none => none
 
 end BeyondVerif.Chain
